@@ -3,7 +3,8 @@
  "name": "copy_file_chunk",
  "props": ["C18"],
  "level": "U/iter",
- "tier": "quick",
+ "tier": "wip",
+ "tier_after_hooks": "quick",
  "harness": "h_copy_file_chunk",
  "loop_contracts": true,
  "includes": ["misc"],
